@@ -318,6 +318,37 @@ struct VCmp {
         return desc ? y < x : x < y;
     }
 };
+// ---------------------------------------------------------------------------------------------
+// runaway-operation bound: the comparator handed to the tlx container counts its calls; the history
+// runner arms a generous per-operation budget (far above what any correct B+ tree operation needs for
+// the current tree: see History::arm_keys / arm_bulk in C01_btree_history.cpp). An operation that
+// exceeds it (a search loop that never terminates) is reported as the labelled failure
+// "<prefix>/runaway-operation" instead of a hang (which the framework can only count as inconclusive).
+// The std model is instantiated with the plain comparator, so only calls made by tlx are counted.
+// ---------------------------------------------------------------------------------------------
+struct CmpBudget {
+    unsigned long long calls = 0;
+    unsigned long long limit = ~0ull; // ~0: not armed
+    unsigned long long worst_permille = 0; // largest calls*1000/limit seen over the armed operations of this case
+};
+inline CmpBudget& cmp_budget() {
+    static CmpBudget b;
+    return b;
+}
+[[noreturn]] void cmp_runaway(); // C01_btree_history.cpp: pbt::fatal(".../runaway-operation", ...)
+
+template <class Base>
+struct Counted : Base {
+    Counted() {}
+    Counted(const Base& b) : Base(b) {} // implicit on purpose
+    template <class T>
+    bool operator()(const T& a, const T& b) const {
+        CmpBudget& g = cmp_budget();
+        if (++g.calls > g.limit) cmp_runaway();
+        return Base::operator()(a, b);
+    }
+};
+
 struct LessTag {
     template <class T>
     using of = std::less<T>;
@@ -479,7 +510,7 @@ struct TreeOf<RAWMSET, Key, Dat, Cmp, Tr, Alloc> {
     typedef tlx::BTree<Key, Key, IdentityKey<Key>, Cmp, Tr, true, Alloc<Key> > type;
 };
 
-template <int ID, Kind K, int L, int I, size_t B, class CT, class Elem, bool Counting>
+template <int ID, Kind K, int L, int I, size_t B, class CT, class Elem, bool Counting, bool CountCmp = false>
 struct Cfg {
     static const int id = ID;
     static const bool raw = (K == RAWSET || K == RAWMSET);
@@ -492,7 +523,8 @@ struct Cfg {
     typedef CT cmp_tag;
     typedef Elem Key;
     typedef Elem Dat;
-    typedef typename CT::template of<Key> TCmp;
+    typedef typename CT::template of<Key> BaseCmp;
+    typedef typename std::conditional<CountCmp, Counted<BaseCmp>, BaseCmp>::type TCmp; // C01: call-counting wrapper (runaway bound)
     template <class T>
     using Alloc = typename std::conditional<Counting, ArenaAllocator<T>, std::allocator<T> >::type; // stateful: one arena per container
     typedef typename TreeOf<K, Key, Dat, TCmp, Traits<L, I, B>, Alloc>::type Tree;
@@ -796,7 +828,7 @@ std::vector<ConfigEntry>& config_table(); // C01_btree_history.cpp
 
 template <class C>
 ITree* create_tree(unsigned shift, bool desc) {
-    return new TreeAdapter<C>(typename TreeAdapter<C>::Build(), C::cmp_tag::template make<typename C::Key>(shift, desc));
+    return new TreeAdapter<C>(typename TreeAdapter<C>::Build(), typename C::TCmp(C::cmp_tag::template make<typename C::Key>(shift, desc)));
 }
 template <class C>
 struct Register {
@@ -812,13 +844,34 @@ struct Register {
 //! selects a configuration among those linked into this binary
 void run_property(pbt::Source& src, bool model);
 
+//! C01 scale classes: configurations with node capacities far beyond the main table (255 ... 65535 slots; the
+//! slot counters of the implementation are 16-bit, so 65535 is the largest capacity the template admits). They live
+//! in a table of their own and are driven by a target of their own (btree_scale), so the choice-byte -> case
+//! mapping of btree_model / btree_invariants is untouched. Same oracle (std model compared after every mutating
+//! step), but the history starts by FILLING such nodes and then runs a modest, cost-bounded number of operations.
+std::vector<ConfigEntry>& scale_table(); // C01_btree_history.cpp
+template <class C>
+struct RegisterScale {
+    explicit RegisterScale(const char* name) {
+        ConfigEntry e = {{C::id, name, C::kind, C::cmp_tag::id, C::leaf, C::inner, C::binary, C::counting,
+                          std::is_same<typename C::Key, Tracked>::value, C::raw},
+                         &create_tree<C>};
+        scale_table().push_back(e);
+    }
+};
+void run_scale_property(pbt::Source& src);
+
 } // namespace bt
 } // namespace verif
 
 // id, kind, leaf_slots, inner_slots, BINARY|LINEAR, LessTag|GreaterTag|StateTag
-#define BT_CONFIG_C01(ID, KIND, L, I, BIN, CMP)                                                                                   \
-    static ::verif::bt::Register< ::verif::bt::Cfg<ID, ::verif::bt::KIND, L, I, ::verif::bt::BIN, ::verif::bt::CMP, int, false> > \
+#define BT_CONFIG_C01(ID, KIND, L, I, BIN, CMP)                                                                                         \
+    static ::verif::bt::Register< ::verif::bt::Cfg<ID, ::verif::bt::KIND, L, I, ::verif::bt::BIN, ::verif::bt::CMP, int, false, true> > \
         bt_reg_##ID(#KIND " leaf=" #L " inner=" #I " " #BIN " " #CMP);
+// scale classes (target btree_scale): same, registered in scale_table()
+#define BT_CONFIG_C01S(ID, KIND, L, I, BIN, CMP)                                                                                             \
+    static ::verif::bt::RegisterScale< ::verif::bt::Cfg<ID, ::verif::bt::KIND, L, I, ::verif::bt::BIN, ::verif::bt::CMP, int, false, true> > \
+        bt_sreg_##ID(#KIND " leaf=" #L " inner=" #I " " #BIN " " #CMP);
 // ... plus element type (int | ::verif::Tracked); always with CountingAllocator
 #define BT_CONFIG_C02(ID, KIND, L, I, BIN, CMP, ELEM)                                                                             \
     static ::verif::bt::Register< ::verif::bt::Cfg<ID, ::verif::bt::KIND, L, I, ::verif::bt::BIN, ::verif::bt::CMP, ELEM, true> > \
